@@ -847,6 +847,40 @@ def _index_axiom(mutable):
     return ax
 
 
+def _split_at_axiom(mutable):
+    def ax(call):
+        I, st, fr = call.interp, call.st, call.fr
+        base = call.args[0]
+        mid = tree_leaf(call.args[1])
+        n = _slice_len(call, base)
+        ok = n != TOP and I.decide_le(st, mid, n)
+        I.obligation(st, fr, ok, "split_at: mid %s <= len %s" % (I.describe_leaf(mid), I.describe_leaf(n)))
+        bl = tree_leaf(base)
+        key = (I.stack_key(st), fr.bb)
+        vis = st.visits.get(key, 0) if st.visits.get(key, 0) < I.loop_bound else "*"
+        out = {}
+        for half, (kind, ln) in enumerate((("to", mid), ("from", I.arith(st, "Sub", n, mid, "usize") if n != TOP else TOP))):
+            rng = ("agg", (((("f", "end"),), mid),)) if kind == "to" else ("agg", (((("f", "start"),), mid),))
+            keys = (call.arg_key(base), rng)
+            ident = ("term", ("app", "slice") + keys) if TOP not in keys else TOP
+            root = ("SL", fr.uid, fr.bb, vis, half)
+            st.write_tree(root, (), {(): ident, (("$len",),): ln})
+            if bl[0] == "ref":
+                if mutable:
+                    st.write_leaf(root, (("$base",),), bl)
+                if kind == "to":
+                    st.write_leaf(root, (("$base0",),), bl)
+            out[(("f", str(half)),)] = ("ref", root, ())
+        out[()] = TOP
+        return call.ret(out)
+    return ax
+
+
+AXIOMS["<impl [T]>::split_at"] = _split_at_axiom(False)
+AXIOM_DOC["<impl [T]>::split_at"] = "(s[..mid], s[mid..]); panics unless mid <= len (obligation)"
+AXIOMS["<impl [T]>::split_at_mut"] = _split_at_axiom(True)
+AXIOM_DOC["<impl [T]>::split_at_mut"] = "(&mut s[..mid], &mut s[mid..]); panics unless mid <= len (obligation)"
+
 for _n in ("<impl Index<I> for [T]>::index", "<impl Index<I> for [T; N]>::index"):
     AXIOMS[_n] = _index_axiom(False)
     AXIOM_DOC[_n] = "s[range]: sub-slice with the evident length; panics unless the range lies within len (obligation)"
